@@ -130,6 +130,12 @@ func hhmm(m int) string { return fmt.Sprintf("%02d:%02d", m/60, m%60) }
 var tailFM, tailFC, tailFT []bool
 var tailReached bool // the last procRun got as far as the recovery tail (it stops at a panic)
 
+// PROCSNAP: after every accepted frame GetRecentFrame() (what a snapshot request is served from) must hand back
+// that frame - also when a sink failed while it was processed.  procRun counts the frames for which it did not.
+var procSnapCheck bool
+var procSnapStale, procSnapChecked int
+var procSnapFirst string
+
 func procRun(in procInput) (steps []procStep) {
 	log.SetOutput(ioutil.Discard)
 	tailFM, tailFC, tailFT = nil, nil, nil
@@ -219,6 +225,18 @@ func procRun(in procInput) (steps []procStep) {
 				nextID++
 				if err := mp.Process(raw); err != nil {
 					outs = append(outs, procOut{T: "panic", Msg: "unexpected error " + err.Error()})
+				} else if procSnapCheck && in.Preview*in.FPS+in.Trigger >= 2 {
+					procSnapChecked++
+					if _, f := mp.GetRecentFrame(); f == nil || getID(f) != step.ID {
+						procSnapStale++
+						if procSnapFirst == "" {
+							got := -1
+							if f != nil {
+								got = getID(f)
+							}
+							procSnapFirst = fmt.Sprintf("event %d: frame %d has been processed, the most recent completed frame handed out is %d", ei, step.ID, got)
+						}
+					}
 				}
 			case "b":
 				raw := []byte{1, 0xff, 0xff, 0xff, 0x7f, 0, 0}
@@ -603,4 +621,36 @@ func procRunner(mode string) propRunner {
 func init() {
 	runners["PROC"] = procRunner("C01")     // refused starts, bad frames, resets; no write faults
 	runners["PROCFAULT"] = procRunner("C12") // faults on every kind of call
+	// PROCSNAP (C16): the same fault histories; judged here: after every accepted frame the frame a snapshot
+	// request would be served from is that frame (ring capacity >= 2), whatever the sinks did meanwhile
+	runners["PROCSNAP"] = func(rng *rand.Rand, n int, tier string, emit func(Case)) {
+		var rin procInput
+		rin.Tail = -1
+		replay := loadReplay(&rin)
+		for i := 0; i < n; i++ {
+			in := rin
+			if !replay {
+				in = procGen(rng, i, "C12")
+			}
+			procSnapCheck, procSnapStale, procSnapChecked, procSnapFirst = true, 0, 0, ""
+			steps := procRun(in)
+			procSnapCheck = false
+			faults := 0
+			for _, st := range steps {
+				for _, o := range st.Outs {
+					if o.Fail {
+						faults++
+					}
+				}
+			}
+			ok := procSnapStale == 0
+			emit(Case{Coq: fmt.Sprintf("mkLag %s %d %d", coqBool(ok), procSnapStale, procSnapChecked), Input: in,
+				Impl: map[string]interface{}{"ok": ok, "frames_checked": procSnapChecked, "stale": procSnapStale, "first": procSnapFirst, "sink_faults": faults},
+				Tags: []string{"snapshot-source-after-every-frame", fmt.Sprintf("sink-faults>0=%v", faults > 0)}, Nontriv: procSnapChecked >= 5 && faults > 0,
+				Key: fmt.Sprint("procsnap", i, procSnapChecked, faults)})
+			if replay {
+				return
+			}
+		}
+	}
 }
